@@ -283,6 +283,7 @@ def run(ctx: Ctx) -> Result:
     res = run_shards(ctx, shard, list(range(nshards)))
     res.merge(typing_named_family())
     res.merge(defaults_family(ctx.quick))
+    res.merge(extra_family(ctx.quick))
     res.obligations.setdefault("saw:typed-dict-class", False)
     res.obligations.setdefault("saw:nontotal", False)
     res.obligations.setdefault("saw:StubIndexBuilder", False)
@@ -366,6 +367,84 @@ def defaults_one(ai: int, bi: int, bidx: int):
     return vs
 
 
+def extra_one(which: str, ai: int, bidx: int):
+    """Three small families (each returns [(kind, sig, msg, stub text)]):
+    zero-arg   - a parameterless function returning a class of ITS OWN module is stubbed first, then another module's stub
+                 mentions that class (alone, in List / Optional / Dict): the later stub still imports it;
+    annotated  - a parameter that carries a source annotation (`opts: dict`) is traced with a TypedDict-shaped dict at
+                 k = 10: whatever class definitions the stub emits can be evaluated with the stub's own imports;
+    k0-nested  - anonymous TypedDicts below a container, stubbed with max_typed_dict_size = 0 (traces recorded under a
+                 larger limit): the annotation still denotes the type and every name is provided."""
+    from monkeytype.tracing import CallTrace
+    import tgt
+    import utils
+
+    cls, bs = classes(), builders()
+    vs = []
+    if which == "zero-arg":
+        try:
+            first = build([CallTrace(tgt.make0, {}, tgt.Own, None)])["tgt"]
+        except Exception as e:  # noqa: BLE001
+            return [("exception", "zero-arg-own-class:" + type(e).__name__, f"raised {e!r}", "")]
+        vs += [(k, "zero-arg-own-class", m, first) for k, s_, m in check_stub(first, "tgt", tgt, [(((), "make0"), {}, tgt.Own)], "zero-arg-own-class")]
+        for form, T in (("plain", tgt.Own), ("List", List[tgt.Own]), ("Optional", Optional[tgt.Own]), ("Dict", Dict[str, tgt.Own])):
+            BN[(((), "uf"), "x6")] = form
+            try:
+                text = build([CallTrace(utils.uf, {"x6": T}, T, None)])["utils"]
+            except Exception as e:  # noqa: BLE001
+                vs.append(("exception", "zero-arg-own-class:" + type(e).__name__, f"raised {e!r}", ""))
+                continue
+            vs += [(k, "class-of-a-module-stubbed-earlier", f"after tgt.make0() -> Own was stubbed in this process, {form}: " + m, text) for k, s_, m in check_stub(text, "utils", utils, [(((), "uf"), {"x6": T}, T)], "x")]
+        return vs
+    bn, b = bs[bidx]
+    T = b(cls[ai], cls[(ai + 1) % len(cls)], "e")
+    if which == "annotated":
+        BN[(((), "fann"), "opts")] = bn
+        try:
+            text = build([CallTrace(tgt.fann, {"opts": T}, None, None)])["tgt"]
+        except Exception as e:  # noqa: BLE001
+            return [("exception", "annotated-parameter:" + type(e).__name__, f"({bn}) raised {e!r}", "")]
+        # the source annotation is replicated; what must hold is that the stub as a whole evaluates
+        return [(k, "annotated-parameter" if not s_.startswith("typed-dict") else s_, f"({bn}) " + m, text) for k, s_, m in check_stub(text, "tgt", tgt, [(((), "fann"), {"opts": dict}, None)], "annotated-parameter")]
+    if which == "k0-nested":
+        BN[(((), "f"), "x1")] = bn
+        try:
+            text = build([CallTrace(tgt.f, {"x1": T}, None, None)], 0)["tgt"]
+        except Exception as e:  # noqa: BLE001
+            return [("exception", "limit-0-nested-typed-dict:" + type(e).__name__, f"({bn}) stub generation with max_typed_dict_size=0 raised {e!r}", "")]
+        return [(k, "limit-0-nested-typed-dict" if not s_.startswith("typed-dict") else s_, f"({bn}, limit 0) " + m, text) for k, s_, m in check_stub(text, "tgt", tgt, [(((), "f"), {"x1": T}, None)], "limit-0-nested-typed-dict")]
+    raise ValueError(which)
+
+
+NESTED_TD_BUILDERS = ["List_td", "Dict_td", "Tuple_td", "Tuple_td2", "DefaultDict_td", "Tuple_td_List_td"]
+
+
+def extra_family(quick: bool) -> Result:
+    res = Result()
+    cls, bs = classes(), builders()
+    names = [n for n, _ in bs]
+    todo = [("zero-arg", 0, 0)]
+    for ai in ((0, 3) if quick else range(len(cls))):
+        todo += [("annotated", ai, names.index(n)) for n in ("td", "td_opt", "List_td", "Dict", "plain")]
+        todo += [("k0-nested", ai, names.index(n)) for n in NESTED_TD_BUILDERS]
+    for which, ai, bidx in todo:
+        res.states += 1
+        res.transitions += 2
+        res.evaluations += 1
+        res.validated += 1
+        case = {"family": "extra", "which": which, "a": ai, "builder": bidx}
+        vs = extra_one(which, ai, bidx)
+        for kind, sig, msg, text in vs[:2]:
+            res.violate(Violation(ID, kind, sig, case, msg + "\n--- stub ---\n" + text[:1200]))
+        if not vs:
+            res.nontrivial_n += 1
+        if not any(k in ("exception", "syntax") for k, *_ in vs):
+            res.oblige("saw:extra:" + which, True)
+    for w in ("zero-arg", "annotated", "k0-nested"):
+        res.obligations.setdefault("saw:extra:" + w, False)
+    return res
+
+
 def defaults_family(quick: bool) -> Result:
     res = Result()
     cls, nb = classes(), len(builders()) + 2
@@ -389,6 +468,8 @@ def defaults_family(quick: bool) -> Result:
 
 def replay(case: Dict[str, Any], ctx: Ctx) -> List[Violation]:
     setup_path()
+    if case.get("family") == "extra":
+        return [Violation(ID, k, s, case, m) for k, s, m, _ in extra_one(case["which"], case["a"], case["builder"])]
     if case.get("family") == "defaults":
         return [Violation(ID, k, s, case, m) for k, s, m, _ in defaults_one(case["a"], case["b"], case["builder"])]
     if case.get("family") == "typing_named":
